@@ -34,7 +34,8 @@ def real_part(ctx):
     if iso:
         jobs += [("via", "thread", iso[-1]), ("python", "thread", iso[0])]
     if not ctx.quick:
-        jobs += [(kind, em, None) for kind in ("popen", "socket", "via") for em in ("main_thread_only",)] * 3 + jobs * 3
+        # (the conversation runs four remote_execs at once: not a main_thread_only scenario; what is observed is the initiator anyway)
+        jobs += jobs * 5
     with mp.get_context("spawn").Pool(min(8, len(jobs)), maxtasksperchild=1) as pool:
         outs = pool.map(_loss_job, jobs, chunksize=1)
     fields = ("err", "blocked_done", "blocked_receive", "blocked_waitclose", "items", "later_receive", "receive_again", "later_waitclose", "callback",
